@@ -40,6 +40,7 @@ impl Sim {
         for part in &self.parts {
             let v = match *part {
                 "peersync" => project::peersync_state(c, &self.chain, &self.names, self.clock.now),
+                "filter" => project::filter_state(c, &self.chain, &self.names),
                 _ => json!({}),
             };
             if let Value::Object(m) = v {
@@ -87,7 +88,7 @@ impl Sim {
         let _ = self.collect_out();
         let rec = json!({
             "ev": "Reset",
-            "world": self.chain.world_json(),
+            "world": if self.parts.contains(&"filter") { self.chain.world_json_full() } else { self.chain.world_json() },
             "cfg": cfg,
             "x": extra,
             "st": self.state(),
